@@ -1,3 +1,960 @@
-//! (stub)
+//! Incremental font transfer tables (read-fonts/src/tables/ift.rs, feature `ift`): patch map
+//! formats 1 / 2, glyph map / feature map with their external read arguments, the variable-width
+//! id types (`U8Or16`, `U16Or24`, `IdDeltaOrLength`), `MatchModeAndCount`, `CompatibilityId`,
+//! table keyed and glyph keyed patches (`GlyphPatches::glyph_data_for_table`).
 use super::*;
-pub fn run(_ctx: &mut Ctx) {}
+use font_types::{GlyphId, Offset32, Uint24};
+use read_fonts::array::ComputedArray;
+use read_fonts::tables::ift::{
+    CompatibilityId, EntryData, EntryMapRecord, FeatureMap, FeatureRecord, GlyphKeyedFlags, GlyphKeyedPatch, GlyphMap, GlyphPatches, IdDeltaOrLength, Ift, MatchModeAndCount,
+    PatchMapFormat1, PatchMapFormat2, TableKeyedPatch, U16Or24, U8Or16,
+};
+use read_fonts::{ComputeSize, FontData, FontRead, FontReadWithArgs};
+
+fn be16(b: &[u8], at: usize) -> Option<u16> {
+    Some(u16::from_be_bytes([*b.get(at)?, *b.get(at + 1)?]))
+}
+
+const MAX_ENTRY_INDEXES: [u16; 8] = [0, 1, 7, 8, 255, 256, 257, 0xFFFF];
+
+// ------------------------------------------------------------------------------------------------
+// format 1
+
+struct F1Spec {
+    max_entry_index: u16,
+    glyph_count: u32,
+    first_mapped: u16,
+    /// entry index per mapped glyph (glyph_count - first_mapped of them, unless hostile)
+    entries: Vec<u16>,
+    feature_map: bool,
+    field_flags: u8,
+}
+
+fn put_id(b: &mut B, wide: bool, v: u16) {
+    if wide {
+        b.u16(v);
+    } else {
+        b.u8(v as u8);
+    }
+}
+
+fn format1(rng: &mut Rng, s: &F1Spec) -> B {
+    let wide = s.max_entry_index >= 256;
+    let mut b = B::new();
+    b.f8(1).u8(0).u8(0).u8(0).f8(s.field_flags);
+    b.bytes(&rng.bytes(16));
+    b.f16(s.max_entry_index).f16(s.max_entry_index.min(rng.below(300) as u16));
+    b.f24(s.glyph_count);
+    let gm_at = b.len();
+    b.f32(0);
+    let fm_at = b.len();
+    b.f32(0);
+    let bitmap_len = s.max_entry_index as usize / 8 + 1;
+    let mut bitmap = rng.bytes(bitmap_len);
+    if rng.chance(1, 3) {
+        bitmap.fill(0xFF);
+    }
+    b.bytes(&bitmap);
+    let uri: &[u8] = match rng.below(4) {
+        0 => b"",
+        1 => b"//foo.bar/{id}",
+        2 => b"\xFF\xFE{id}",
+        _ => b"a",
+    };
+    b.f16(uri.len() as u16);
+    b.bytes(uri);
+    b.u8(rng.below(4) as u8);
+    if s.field_flags & 1 != 0 {
+        b.u32(rng.next() as u32);
+    }
+    if s.field_flags & 2 != 0 {
+        b.u32(rng.next() as u32);
+    }
+    // glyph map
+    let at = b.len();
+    b.set32(gm_at, at as u32);
+    b.f16(s.first_mapped);
+    for e in &s.entries {
+        put_id(&mut b, wide, *e);
+    }
+    if s.feature_map {
+        let at = b.len();
+        b.set32(fm_at, at as u32);
+        let n = rng.below(4) as u16;
+        b.f16(n);
+        let mut counts = vec![];
+        for k in 0..n {
+            b.tag(&[b'l', b'i', b'g', b'a' + k as u8]);
+            put_id(&mut b, wide, rng.below(s.max_entry_index as u64 + 1) as u16);
+            let c = rng.below(3) as u16;
+            counts.push(c);
+            put_id(&mut b, wide, c);
+        }
+        for c in counts {
+            for _ in 0..c {
+                put_id(&mut b, wide, rng.below(s.max_entry_index as u64 + 1) as u16);
+                put_id(&mut b, wide, rng.below(s.max_entry_index as u64 + 1) as u16);
+            }
+        }
+        if rng.chance(1, 3) {
+            {
+                let n = 1 + rng.below(3) as usize;
+                b.bytes(&rng.bytes(n));
+            }
+        }
+    }
+    b
+}
+
+fn note_u8or16_array(o: &mut Obs, name: &str, len: usize, a: &ComputedArray<U8Or16>, marks: &[usize]) {
+    o.note(a.len() as u64);
+    o.note(a.is_empty() as u64);
+    // one or two bytes per item
+    let n_iter = o.drain(name, len + 1, a.iter(), |o, v| {
+        if o.res(&v) {
+            o.note(v.unwrap().get() as u64);
+        }
+    });
+    if n_iter != a.len() && o.over.is_none() {
+        o.over = Some(format!("{name} yields {n_iter} items, len() = {}", a.len()));
+    }
+    let mut m = vec![a.len()];
+    m.extend_from_slice(marks);
+    for i in edge_usize(&m) {
+        let v = a.get(i);
+        if o.res(&v) {
+            o.note(v.unwrap().get() as u64);
+        }
+    }
+}
+
+fn walk_feature_map(o: &mut Obs, len: usize, fm: &FeatureMap, max_entry_index: u16) {
+    o.note(fm.feature_count() as u64);
+    let recs = fm.feature_records();
+    o.note(recs.len() as u64);
+    // tag + two ids: at least 6 bytes per record
+    let n_iter = o.drain("feature_records.iter", len / 6 + 1, recs.iter(), |o, r| {
+        if o.res(&r) {
+            let r = r.unwrap();
+            o.note_bytes(&r.feature_tag().to_be_bytes());
+            o.note(r.first_new_entry_index().get() as u64);
+            o.note(r.entry_map_count().get() as u64);
+        }
+    });
+        if n_iter != recs.len() && o.over.is_none() {
+            o.over = Some(format!("feature_records.iter yields {n_iter} items, len() = {}", recs.len()));
+        }
+    for i in edge_usize(&[recs.len(), fm.feature_count() as usize]) {
+        let r = recs.get(i);
+        if o.res(&r) {
+            o.note(r.unwrap().entry_map_count().get() as u64);
+        }
+    }
+    let emd = fm.entry_map_data();
+    o.note(emd.len() as u64);
+    for mei in [max_entry_index, 0, 255, 256, 0xFFFF] {
+        let r = fm.entry_records_size(mei);
+        if o.res(&r) {
+            o.note(*r.as_ref().unwrap() as u64);
+        }
+        // two ids of one or two bytes per entry map record
+        {
+            let mut want = Ok(0usize);
+            for rec in recs.iter() {
+                match (rec, &mut want) {
+                    (Ok(rec), Ok(w)) => *w += rec.entry_map_count().get() as usize * if mei < 256 { 2 } else { 4 },
+                    (Err(e), _) => want = Err(e),
+                    _ => {}
+                }
+            }
+            if want != r && o.over.is_none() {
+                o.over = Some(format!("entry_records_size({mei}) = {r:?}, expected {want:?}"));
+            }
+        }
+        // the entry map records behind the feature records
+        if let Ok(a) = ComputedArray::<EntryMapRecord>::new(FontData::new(emd), mei) {
+            o.note(a.len() as u64);
+            let n_iter = o.drain("entry_map_records.iter", len / 2 + 1, a.iter(), |o, r| {
+                if o.res(&r) {
+                    let r = r.unwrap();
+                    o.note(r.first_entry_index().get() as u64);
+                    o.note(r.last_entry_index().get() as u64);
+                }
+            });
+        if n_iter != a.len() && o.over.is_none() {
+            o.over = Some(format!("entry_map_records.iter yields {n_iter} items, len() = {}", a.len()));
+        }
+            for i in edge_usize(&[a.len()]) {
+                o.res(&a.get(i));
+            }
+        }
+    }
+}
+
+fn walk_format1(o: &mut Obs, len: usize, t: &PatchMapFormat1) {
+    let mei = t.max_entry_index();
+    let glyph_count = t.glyph_count().to_u32();
+    o.note(mei as u64);
+    o.note(t.max_glyph_map_entry_index() as u64);
+    o.note(glyph_count as u64);
+    o.note(t.entry_count() as u64);
+    if t.entry_count() != mei as u32 + 1 {
+        o.over = Some("entry_count != max_entry_index + 1".into());
+    }
+    o.note(t.patch_format() as u64);
+    o.note_bytes(t.compatibility_id().as_slice());
+    let r = t.uri_template_as_string();
+    if o.res(&r) {
+        o.note_str(r.unwrap());
+    }
+    let bitmap = t.applied_entries_bitmap();
+    o.note(bitmap.len() as u64);
+    for i in edge16(&[mei as u32, (bitmap.len() * 8) as u32, (bitmap.len() * 8).saturating_sub(8) as u32, 7, 8, 9, 15, 16]) {
+        let got = t.is_entry_applied(i);
+        let want = bitmap.get(i as usize / 8).map(|b| b & (1 << (i % 8)) != 0).unwrap_or(false);
+        o.note(got as u64);
+        if got != want && o.over.is_none() {
+            o.over = Some(format!("is_entry_applied({i}) = {got}, bitmap says {want}"));
+        }
+    }
+    // glyph_count - first_mapped_glyph entries of at least one byte each
+    let mut n_seen = 0u64;
+    o.drain("gid_to_entry_iter", len + 1, t.gid_to_entry_iter(), |o, (g, e)| {
+        n_seen += 1;
+        o.note(g.to_u32() as u64);
+        o.note(e as u64);
+        if (e == 0 || g.to_u32() >= glyph_count) && o.over.is_none() {
+            o.over = Some(format!("gid_to_entry_iter yields ({g}, {e}) for glyph_count {glyph_count}"));
+        }
+    });
+    let gm = t.glyph_map();
+    if o.res(&gm) {
+        let gm = gm.unwrap();
+        let first = gm.first_mapped_glyph();
+        o.note(first as u64);
+        let a = gm.entry_index();
+        let want_len = (glyph_count as usize).saturating_sub(first as usize);
+        if a.len() != want_len && o.over.is_none() {
+            o.over = Some(format!("entry_index has {} items for glyph_count {glyph_count} first_mapped_glyph {first}", a.len()));
+        }
+        note_u8or16_array(o, "entry_index.iter", len, &a, &[glyph_count as usize, first as usize]);
+    }
+    if let Some(fm) = t.feature_map() {
+        if o.res(&fm) {
+            walk_feature_map(o, len, &fm.unwrap(), mei);
+        }
+    }
+}
+
+fn walk_format2(o: &mut Obs, len: usize, t: &PatchMapFormat2) {
+    o.note(t.default_patch_format() as u64);
+    o.note(t.entry_count().to_u32() as u64);
+    o.note_bytes(t.compatibility_id().as_slice());
+    let r = t.uri_template_as_string();
+    if o.res(&r) {
+        o.note_str(r.unwrap());
+    }
+    let sd_off = t.entry_id_string_data_offset();
+    if let Some(sd) = t.entry_id_string_data() {
+        if o.res(&sd) {
+            o.note(sd.unwrap().id_data().len() as u64);
+        }
+    }
+    let e = t.entries();
+    if o.res(&e) {
+        let data = e.unwrap().entry_data();
+        o.note(data.len() as u64);
+        for at in 0..data.len().min(40) {
+            for off in [*sd_off.offset(), Offset32::new(0), Offset32::new(1)] {
+                let r = EntryData::read(FontData::new(&data[at..]), off);
+                if o.res(&r) {
+                    note_entry(o, &r.unwrap());
+                }
+            }
+        }
+    }
+    let _ = len;
+}
+
+fn note_entry(o: &mut Obs, e: &EntryData) {
+    o.note(e.format_flags().bits() as u64);
+    o.note(e.feature_count().map(|v| v as u64 + 1).unwrap_or(0));
+    o.note(e.feature_tags().map(|v| v.len() as u64 + 1).unwrap_or(0));
+    o.note(e.design_space_count().map(|v| v as u64 + 1).unwrap_or(0));
+    if let Some(s) = e.design_space_segments() {
+        for d in s.iter().take(8) {
+            o.note(d.start().to_bits() as u32 as u64);
+            o.note(d.end().to_bits() as u32 as u64);
+        }
+    }
+    if let Some(m) = e.match_mode_and_count() {
+        o.note(m.bits() as u64);
+        o.note(m.count() as u64);
+        o.note(m.conjunctive_match() as u64);
+        let n: Result<usize, _> = m.try_into();
+        o.res(&n);
+        let ci = e.child_indices().map(|c| c.len());
+        if ci != Some(m.count() as usize) && o.over.is_none() {
+            o.over = Some(format!("child_indices {ci:?} for match mode and count {:#x}", m.bits()));
+        }
+    }
+    o.note(e.entry_id_delta().map(|d| d.into_inner() as u32 as u64 + 1).unwrap_or(0));
+    o.note(e.patch_format().map(|v| v as u64 + 1).unwrap_or(0));
+    o.note(e.codepoint_data().len() as u64);
+}
+
+fn walk_ift(bytes: &[u8], o: &mut Obs) {
+    let len = bytes.len();
+    let r = Ift::read(FontData::new(bytes));
+    if !o.res(&r) {
+        return;
+    }
+    let ift = r.unwrap();
+    o.note(ift.format() as u64);
+    o.note(ift.field_flags().bits() as u64);
+    o.note_bytes(ift.compatibility_id().as_slice());
+    o.note(ift.uri_template_length() as u64);
+    o.note_bytes(ift.uri_template());
+    o.note(ift.cff_charstrings_offset().map(|v| v as u64 + 1).unwrap_or(0));
+    o.note(ift.cff2_charstrings_offset().map(|v| v as u64 + 1).unwrap_or(0));
+    match &ift {
+        Ift::Format1(t) => walk_format1(o, len, t),
+        Ift::Format2(t) => walk_format2(o, len, t),
+    }
+}
+
+fn f1_spec(rng: &mut Rng, mei: u16) -> F1Spec {
+    let glyph_count = match rng.below(8) {
+        0 => 0,
+        1 => 1,
+        _ => 2 + rng.below(10) as u32,
+    };
+    let first_mapped = match rng.below(8) {
+        0 => glyph_count as u16,
+        1 => glyph_count as u16 + 1,
+        2 => 0,
+        3 => 0xFFFF,
+        _ => rng.below(glyph_count as u64 + 1) as u16,
+    };
+    let mut n = (glyph_count as usize).saturating_sub(first_mapped as usize);
+    match rng.below(10) {
+        0 => n += 1,
+        1 => n = n.saturating_sub(1),
+        _ => {}
+    }
+    let entries = (0..n).map(|_| if rng.chance(1, 3) { 0 } else { rng.below(mei as u64 + 1) as u16 }).collect();
+    F1Spec { max_entry_index: mei, glyph_count, first_mapped, entries, feature_map: rng.chance(2, 3), field_flags: rng.below(4) as u8 | if rng.chance(1, 8) { 0x80 } else { 0 } }
+}
+
+fn run_format1(ctx: &mut Ctx) {
+    let rounds = if ctx.thorough { 400 } else { 72 };
+    for round in 0..rounds {
+        let mei = MAX_ENTRY_INDEXES[round % MAX_ENTRY_INDEXES.len()];
+        if mei == 0xFFFF && round >= 16 && !ctx.thorough {
+            continue;
+        }
+        let spec = f1_spec(&mut ctx.rng, mei);
+        let b = format1(&mut ctx.rng, &spec);
+        ctx.drive("ift1", &b, &walk_ift);
+        ctx.count(&format!("format1.max_entry_index{mei}"));
+        // relational: the iterator yields exactly the mapped glyphs with a non-zero entry
+        let clean = spec.entries.len() == (spec.glyph_count as usize).saturating_sub(spec.first_mapped as usize);
+        if clean {
+            if let Ok(Ift::Format1(t)) = Ift::read(FontData::new(&b.v)) {
+                let wide = mei >= 256;
+                let want: Vec<(u32, u16)> = spec.entries.iter().enumerate().map(|(i, e)| (spec.first_mapped as u32 + i as u32, if wide { *e } else { *e & 0xFF })).filter(|(_, e)| *e > 0).collect();
+                let got = catch(|| t.gid_to_entry_iter().take(100).map(|(g, e)| (g.to_u32(), e)).collect::<Vec<_>>());
+                ctx.oracle("ift.gid-to-entry", got.as_ref() == Ok(&want), || format!("ift1 {}", hex(&b.v)), || format!("expected {want:?} got {got:?}"));
+                ctx.count("format1.clean");
+            }
+        }
+    }
+}
+
+// ------------------------------------------------------------------------------------------------
+// glyph map / feature map / records with external arguments
+
+/// `[glyph_count u24][max_entry_index u16][glyph map]`
+fn walk_glyph_map(bytes: &[u8], o: &mut Obs) {
+    if bytes.len() < 5 {
+        return;
+    }
+    let gc = u32::from_be_bytes([0, bytes[0], bytes[1], bytes[2]]);
+    let mei = be16(bytes, 3).unwrap();
+    let data = &bytes[5..];
+    let first = be16(data, 0).unwrap_or(0) as u32;
+    let mut gcs = vec![gc, 0, 1, 255, 256, 0xFFFF, 0x10000, 0xFF_FFFF, first, first + 1, first.saturating_sub(1)];
+    gcs.dedup();
+    let mut meis = vec![mei, 0, 255, 256, 0xFFFF];
+    meis.dedup();
+    for gc in gcs {
+        for mei in &meis {
+            let r = GlyphMap::read(FontData::new(data), Uint24::new(gc), *mei);
+            if o.res(&r) {
+                let gm = r.unwrap();
+                o.note(gm.first_mapped_glyph() as u64);
+                let a = gm.entry_index();
+                let want = (gc as usize).saturating_sub(gm.first_mapped_glyph() as usize);
+                if a.len() != want && o.over.is_none() {
+                    o.over = Some(format!("entry_index has {} items, glyph_count {gc} first {}", a.len(), gm.first_mapped_glyph()));
+                }
+                note_u8or16_array(o, "entry_index.iter", data.len(), &a, &[gc as usize]);
+            }
+        }
+    }
+}
+
+/// `[max_entry_index u16][feature map]`
+fn walk_feature_map_args(bytes: &[u8], o: &mut Obs) {
+    let Some(mei) = be16(bytes, 0) else { return };
+    let data = &bytes[2..];
+    let mut meis = vec![mei, 0, 255, 256, 0xFFFF];
+    meis.dedup();
+    for mei in meis {
+        let r = FeatureMap::read(FontData::new(data), mei);
+        if o.res(&r) {
+            walk_feature_map(o, data.len(), &r.unwrap(), mei);
+        }
+        let r = FeatureRecord::read(FontData::new(data), mei);
+        if o.res(&r) {
+            let r = r.unwrap();
+            o.note(r.first_new_entry_index().get() as u64);
+            o.note(r.entry_map_count().get() as u64);
+        }
+        o.res(&FeatureRecord::compute_size(&mei));
+        let r = EntryMapRecord::read(FontData::new(data), mei);
+        if o.res(&r) {
+            let r = r.unwrap();
+            o.note(r.first_entry_index().get() as u64);
+            o.note(r.last_entry_index().get() as u64);
+        }
+        o.res(&EntryMapRecord::compute_size(&mei));
+    }
+}
+
+/// the variable width scalars
+fn walk_ids(bytes: &[u8], o: &mut Obs) {
+    let data = FontData::new(bytes);
+    for mei in [0u16, 1, 254, 255, 256, 257, 0xFFFF] {
+        let size = U8Or16::compute_size(&mei);
+        o.res(&size);
+        let r = U8Or16::read_with_args(data, &mei);
+        if o.res(&r) {
+            o.note(r.as_ref().unwrap().get() as u64);
+        }
+        // the value read is exactly `size` bytes wide
+        let want = if mei < 256 { bytes.first().map(|v| *v as u16) } else { be16(bytes, 0) };
+        if r.as_ref().ok().map(|v| v.get()) != want || size != Ok(if mei < 256 { 1 } else { 2 }) {
+            o.over = Some(format!("U8Or16 with max_entry_index {mei}: {r:?}, expected {want:?}"));
+        }
+    }
+    let be24 = bytes.get(..3).map(|b| u32::from_be_bytes([0, b[0], b[1], b[2]]));
+    for bits in [0u8, 1, 2, 3, 0xFF] {
+        let flags = GlyphKeyedFlags::from_bits_truncate(bits);
+        let size = U16Or24::compute_size(&flags);
+        o.res(&size);
+        let r = U16Or24::read_with_args(data, &flags);
+        if o.res(&r) {
+            o.note(r.as_ref().unwrap().get() as u64);
+        }
+        let wide = bits & 1 != 0;
+        let want = if wide { be24 } else { be16(bytes, 0).map(|v| v as u32) };
+        if (r.as_ref().ok().map(|v| v.get()) != want || size != Ok(if wide { 3 } else { 2 })) && o.over.is_none() {
+            o.over = Some(format!("U16Or24 with flags {bits:#x}: {r:?}, expected {want:?}"));
+        }
+    }
+    for off in [0u32, 1, 0xFFFF_FFFF] {
+        let off = Offset32::new(off);
+        let size = IdDeltaOrLength::compute_size(&off);
+        o.res(&size);
+        let r = IdDeltaOrLength::read_with_args(data, &off);
+        if o.res(&r) {
+            o.note(r.as_ref().unwrap().into_inner() as u32 as u64);
+        }
+        // without id string data: a signed 24 bit delta, with: an unsigned 16 bit length
+        let null = off.to_u32() == 0;
+        let want = if null { be24.map(|v| ((v << 8) as i32) >> 8) } else { be16(bytes, 0).map(|v| v as i32) };
+        if (r.as_ref().ok().map(|v| v.into_inner()) != want || size != Ok(if null { 3 } else { 2 })) && o.over.is_none() {
+            o.over = Some(format!("IdDeltaOrLength with offset {}: {r:?}, expected {want:?}", off.to_u32()));
+        }
+    }
+}
+
+fn run_args(ctx: &mut Ctx) {
+    for round in 0..(if ctx.thorough { 400 } else { 72 }) {
+        let mei = MAX_ENTRY_INDEXES[round % MAX_ENTRY_INDEXES.len()];
+        let wide = mei >= 256;
+        let gc = ctx.rng.below(10) as u32;
+        let first = ctx.rng.below(gc as u64 + 2) as u16;
+        let mut b = B::new();
+        b.f24(gc).f16(mei).f16(first);
+        for _ in 0..(gc as usize).saturating_sub(first as usize) {
+            put_id(&mut b, wide, ctx.rng.below(mei as u64 + 1) as u16);
+        }
+        if round % 3 == 0 {
+            b.bytes(&ctx.rng.bytes(2));
+        }
+        ctx.drive("glyph-map", &b, &walk_glyph_map);
+        // feature map
+        let mut b = B::new();
+        b.f16(mei);
+        let n = ctx.rng.below(4) as u16;
+        b.f16(n);
+        let mut total = 0;
+        for _ in 0..n {
+            b.tag(b"liga");
+            put_id(&mut b, wide, 1);
+            let c = match ctx.rng.below(5) {
+                0 => 0xFFFF,
+                c => c as u16,
+            };
+            total += (c as usize).min(6);
+            put_id(&mut b, wide, c);
+        }
+        for _ in 0..total {
+            put_id(&mut b, wide, ctx.rng.below(9) as u16);
+            put_id(&mut b, wide, ctx.rng.below(9) as u16);
+        }
+        ctx.drive("feature-map", &b, &walk_feature_map_args);
+    }
+    ctx.drive_random("glyph-map", if ctx.thorough { 6000 } else { 1000 }, 24, &walk_glyph_map);
+    ctx.drive_random("feature-map", if ctx.thorough { 6000 } else { 1000 }, 40, &walk_feature_map_args);
+    for n in 0..5usize {
+        for _ in 0..8 {
+            let v = ctx.rng.bytes(n);
+            ctx.call("ids", &v, &walk_ids);
+        }
+    }
+    // MatchModeAndCount / CompatibilityId on every bit pattern
+    ctx.call("scalars", &[], &|_b, o| {
+        for bits in 0..=255u8 {
+            let m = MatchModeAndCount::from_bits(bits);
+            let n: Result<usize, _> = m.try_into();
+            let ok = m.bits() == bits && m.count() == bits & 0x7F && m.conjunctive_match() == (bits & 0x80 != 0) && n == Ok((bits & 0x7F) as usize);
+            if !ok && o.over.is_none() {
+                o.over = Some(format!("MatchModeAndCount helpers wrong for {bits:#x}"));
+            }
+            o.note(m.count() as u64);
+        }
+        for vals in [[0u32; 4], [u32::MAX; 4], [1, 2, 3, 4], [0x0102_0304, 0x0506_0708, 0x090A_0B0C, 0x0D0E_0F10]] {
+            let id = CompatibilityId::from_u32s(vals);
+            let mut want = [0u8; 16];
+            for (i, v) in vals.iter().enumerate() {
+                want[i * 4..i * 4 + 4].copy_from_slice(&v.to_be_bytes());
+            }
+            if (id.as_slice() != want || id != CompatibilityId::new(want)) && o.over.is_none() {
+                o.over = Some("CompatibilityId::from_u32s".into());
+            }
+            o.note_bytes(id.as_slice());
+        }
+    });
+}
+
+// ------------------------------------------------------------------------------------------------
+// format 2 + entry data
+
+/// one encoded entry for the given format flags
+fn entry_bytes(rng: &mut Rng, flags: u8, string_data: bool) -> B {
+    let mut b = B::new();
+    b.f8(flags);
+    if flags & 1 != 0 {
+        let n = rng.below(3) as u8;
+        b.f8(n);
+        for _ in 0..n {
+            b.tag(b"smcp");
+        }
+        let d = rng.below(3) as u16;
+        b.f16(d);
+        for _ in 0..d {
+            b.tag(b"wght").i32(rng.next() as i32).i32(rng.next() as i32);
+        }
+    }
+    if flags & 2 != 0 {
+        let n = rng.below(4) as u8;
+        b.f8(n | if rng.chance(1, 2) { 0x80 } else { 0 });
+        for _ in 0..n {
+            b.u24(rng.below(40) as u32);
+        }
+    }
+    if flags & 4 != 0 {
+        if string_data {
+            b.f16(rng.below(6) as u16);
+        } else {
+            b.u24(rng.next() as u32 & 0xFF_FFFF);
+        }
+    }
+    if flags & 8 != 0 {
+        b.u8(rng.below(4) as u8);
+    }
+    match (flags >> 4) & 3 {
+        1 => {
+            b.u16(rng.next() as u16);
+        }
+        2 => {
+            b.u24(rng.below(0x11_0000) as u32);
+        }
+        _ => {}
+    }
+    if flags & 0x30 != 0 {
+        b.bytes(&rbytes(rng, 5));
+    }
+    b
+}
+
+fn format2(rng: &mut Rng, flags_list: &[u8], string_data: bool, field_flags: u8) -> B {
+    let mut b = B::new();
+    b.f8(2).u8(0).u8(0).u8(0).f8(field_flags);
+    b.bytes(&rng.bytes(16));
+    b.u8(rng.below(4) as u8);
+    b.f24(flags_list.len() as u32);
+    let e_at = b.len();
+    b.f32(0);
+    let s_at = b.len();
+    b.f32(0);
+    let uri: &[u8] = if rng.chance(1, 2) { b"//x/{id}" } else { b"\xC3" };
+    b.f16(uri.len() as u16);
+    b.bytes(uri);
+    if field_flags & 1 != 0 {
+        b.u32(rng.next() as u32);
+    }
+    if field_flags & 2 != 0 {
+        b.u32(rng.next() as u32);
+    }
+    let at = b.len();
+    b.set32(e_at, at as u32);
+    for f in flags_list {
+        let e = entry_bytes(rng, *f, string_data);
+        b.append(&e);
+    }
+    if string_data {
+        let at = b.len();
+        b.set32(s_at, at as u32);
+        b.bytes(&rbytes(rng, 12));
+    }
+    b
+}
+
+/// `[string data offset u32][entry]`
+fn walk_entry(bytes: &[u8], o: &mut Obs) {
+    if bytes.len() < 4 {
+        return;
+    }
+    let off = u32::from_be_bytes([bytes[0], bytes[1], bytes[2], bytes[3]]);
+    let r = EntryData::read(FontData::new(&bytes[4..]), Offset32::new(off));
+    if o.res(&r) {
+        note_entry(o, &r.unwrap());
+    }
+}
+
+fn run_format2(ctx: &mut Ctx) {
+    let rounds = if ctx.thorough { 300 } else { 56 };
+    for round in 0..rounds {
+        let n = ctx.rng.below(4) as usize;
+        let flags: Vec<u8> = (0..n).map(|_| ctx.rng.next() as u8 & if ctx.rng.chance(1, 6) { 0xFF } else { 0x3F }).collect();
+        let b = format2(&mut ctx.rng, &flags, round % 2 == 0, (round % 4) as u8);
+        ctx.drive("ift2", &b, &walk_ift);
+        ctx.count(if round % 2 == 0 { "format2.string-data" } else { "format2.no-string-data" });
+    }
+    // every format flag combination, with and without id string data
+    for flags in 0..=255u8 {
+        for sd in [false, true] {
+            let e = entry_bytes(&mut ctx.rng, flags, sd);
+            let mut b = B::new();
+            b.f32(if sd { 100 } else { 0 });
+            b.append(&e);
+            if flags % 16 == (sd as u8) * 5 {
+                ctx.drive("entry", &b, &walk_entry);
+            } else {
+                ctx.call("entry", &b.v, &walk_entry);
+                for cut in 4..b.len() {
+                    ctx.call("entry", &b.v[..cut], &walk_entry);
+                }
+            }
+        }
+    }
+    ctx.count_n("format2.entry-flag-combinations", 512);
+    ctx.drive_random("ift", if ctx.thorough { 12000 } else { 2000 }, 80, &walk_ift);
+    ctx.drive_random("entry", if ctx.thorough { 6000 } else { 1000 }, 24, &walk_entry);
+}
+
+// ------------------------------------------------------------------------------------------------
+// table keyed / glyph keyed patches
+
+fn table_keyed(rng: &mut Rng, n: u16) -> B {
+    let mut b = B::new();
+    b.tag(b"iftk").u32(0);
+    b.bytes(&rng.bytes(16));
+    b.f16(n);
+    let offs = b.len();
+    for _ in 0..=n {
+        b.f32(0);
+    }
+    for k in 0..n as usize {
+        let at = b.len();
+        b.set32(offs + 4 * k, at as u32);
+        b.tag(b"glyf").f8(rng.below(4) as u8).f32(rng.next() as u32);
+        b.bytes(&rbytes(rng, 6));
+    }
+    let at = b.len();
+    b.set32(offs + 4 * n as usize, at as u32);
+    b
+}
+
+fn walk_table_keyed(bytes: &[u8], o: &mut Obs) {
+    let len = bytes.len();
+    let r = TableKeyedPatch::read(FontData::new(bytes));
+    if !o.res(&r) {
+        return;
+    }
+    let t = r.unwrap();
+    o.note_bytes(&t.format().to_be_bytes());
+    o.note_bytes(t.compatibility_id().as_slice());
+    let n = t.patches_count() as usize;
+    o.note(n as u64);
+    o.note(t.patch_offsets().len() as u64);
+    let p = t.patches();
+    let note_patch = |o: &mut Obs, r: Result<read_fonts::tables::ift::TablePatch, read_fonts::ReadError>| {
+        if o.res(&r) {
+            let p = r.unwrap();
+            o.note_bytes(&p.tag().to_be_bytes());
+            let f = p.flags();
+            o.note(f.bits() as u64);
+            o.note(f.contains(read_fonts::tables::ift::TablePatchFlags::REPLACE_TABLE) as u64);
+            o.note(f.contains(read_fonts::tables::ift::TablePatchFlags::DROP_TABLE) as u64);
+            o.note(p.max_uncompressed_length() as u64);
+            o.note(p.brotli_stream().len() as u64);
+        }
+    };
+    // one 4 byte offset per patch
+    o.drain("patches.iter", len / 4 + 1, p.iter(), |o, r| note_patch(o, r));
+    for i in edge_usize(&[n, n + 1]) {
+        if i <= n + 1 || i >= usize::MAX - 1 {
+            let r = catch_get(&p, i);
+            match r {
+                Some(r) => note_patch(o, r),
+                None => o.note(0),
+            }
+        }
+    }
+}
+
+/// `ArrayOfOffsets::get` indexes a slice: only in-range indices are part of its contract
+fn catch_get<'a>(p: &read_fonts::ArrayOfOffsets<'a, read_fonts::tables::ift::TablePatch<'a>, Offset32>, i: usize) -> Option<Result<read_fonts::tables::ift::TablePatch<'a>, read_fonts::ReadError>> {
+    if i < p.len() {
+        Some(p.get(i))
+    } else {
+        None
+    }
+}
+
+struct GkSpec {
+    wide: bool,
+    gids: Vec<u32>,
+    n_tables: u8,
+}
+
+/// returns the block and, per table and glyph, the expected data
+fn glyph_patches(rng: &mut Rng, s: &GkSpec) -> (B, Vec<Vec<Vec<u8>>>) {
+    let mut b = B::new();
+    b.f32(s.gids.len() as u32).f8(s.n_tables);
+    for g in &s.gids {
+        if s.wide {
+            b.u24(*g);
+        } else {
+            b.u16(*g as u16);
+        }
+    }
+    for k in 0..s.n_tables {
+        b.tag(&[b'g', b'l', b'y', b'a' + k % 26]);
+    }
+    let n_off = s.gids.len() * s.n_tables as usize + 1;
+    let offs = b.len();
+    for _ in 0..n_off {
+        b.f32(0);
+    }
+    let mut want = vec![];
+    let mut k = 0;
+    for _ in 0..s.n_tables {
+        let mut per = vec![];
+        for _ in 0..s.gids.len() {
+            let d = rbytes(rng, 5);
+            let at = b.len();
+            b.set32(offs + 4 * k, at as u32);
+            b.bytes(&d);
+            per.push(d);
+            k += 1;
+        }
+        want.push(per);
+    }
+    let at = b.len();
+    b.set32(offs + 4 * k, at as u32);
+    (b, want)
+}
+
+/// `[flags u8][glyph patches]`
+fn walk_glyph_patches(bytes: &[u8], o: &mut Obs) {
+    let Some((flags, data)) = bytes.split_first() else { return };
+    let len = data.len();
+    for flags in [*flags, *flags ^ 1] {
+        let flags = GlyphKeyedFlags::from_bits_truncate(flags);
+        let r = GlyphPatches::read(FontData::new(data), flags);
+        if !o.res(&r) {
+            continue;
+        }
+        let t = r.unwrap();
+        let gc = t.glyph_count() as usize;
+        let tc = t.table_count() as usize;
+        o.note(gc as u64);
+        o.note(tc as u64);
+        let ids = t.glyph_ids();
+        o.note(ids.len() as u64);
+        // two or three bytes per glyph id
+        let n_iter = o.drain("glyph_ids.iter", len / 2 + 1, ids.iter(), |o, v| {
+            if o.res(&v) {
+                o.note(v.unwrap().get() as u64);
+            }
+        });
+        if n_iter != ids.len() && o.over.is_none() {
+            o.over = Some(format!("glyph_ids.iter yields {n_iter} items, len() = {}", ids.len()));
+        }
+        for i in edge_usize(&[gc, ids.len()]) {
+            let v = ids.get(i);
+            if o.res(&v) {
+                o.note(v.unwrap().get() as u64);
+            }
+        }
+        o.note(t.tables().len() as u64);
+        o.note(t.glyph_data_offsets().len() as u64);
+        let mut tis = edge_usize(&[tc, gc, gc * tc]);
+        // table indices whose product with glyph_count may exceed usize: see walk_glyph_patches_big
+        tis.retain(|x| *x <= 0x1_0000_0000);
+        tis.extend(0..tc.min(6));
+        tis.sort();
+        tis.dedup();
+        for ti in tis {
+            let mut failed = false;
+            o.drain("glyph_data_for_table", len / 2 + 1, t.glyph_data_for_table(ti), |o, r| {
+                // the iterator ends with its first error
+                if failed && o.over.is_none() {
+                    o.over = Some(format!("glyph_data_for_table({ti}) yields items after an error"));
+                }
+                failed |= r.is_err();
+                if o.res(&r) {
+                    let (g, d) = r.unwrap();
+                    o.note(g.to_u32() as u64);
+                    o.note_bytes(&d[..d.len().min(16)]);
+                }
+            });
+        }
+    }
+}
+
+/// Very large external table indices, on the generated tables only (not on their mutations, to keep
+/// the failure list short).
+/// FINDING: `glyph_data_for_table` computes `table_index * glyph_count` and `start_index + 1`
+/// unchecked (ift.rs:293/295); C01_HAND_SKIP_KNOWN=1 skips this walk.
+fn walk_glyph_patches_big(bytes: &[u8], o: &mut Obs) {
+    let Some((flags, data)) = bytes.split_first() else { return };
+    let Ok(t) = GlyphPatches::read(FontData::new(data), GlyphKeyedFlags::from_bits_truncate(*flags)) else { return };
+    for ti in [usize::MAX, usize::MAX - 1, usize::MAX / 2, usize::MAX / 2 + 1, usize::MAX / 3 + 1, 1 << 33, 1 << 62] {
+        o.drain("glyph_data_for_table", data.len() / 2 + 1, t.glyph_data_for_table(ti), |o, r| {
+            o.res(&r);
+        });
+    }
+}
+
+fn walk_glyph_keyed(bytes: &[u8], o: &mut Obs) {
+    let r = GlyphKeyedPatch::read(FontData::new(bytes));
+    if !o.res(&r) {
+        return;
+    }
+    let t = r.unwrap();
+    o.note_bytes(&t.format().to_be_bytes());
+    o.note(t.flags().bits() as u64);
+    o.note_bytes(t.compatibility_id().as_slice());
+    o.note(t.max_uncompressed_length() as u64);
+    o.note(t.brotli_stream().len() as u64);
+}
+
+fn run_patches(ctx: &mut Ctx) {
+    for round in 0..(if ctx.thorough { 120 } else { 24 }) {
+        let n = match round % 5 {
+            0 => 0,
+            1 => 1,
+            _ => 1 + ctx.rng.below(4) as u16,
+        };
+        let b = table_keyed(&mut ctx.rng, n);
+        ctx.drive("table-keyed", &b, &walk_table_keyed);
+        let mut b = B::new();
+        b.tag(b"ifgk").u32(0).f8((round % 3) as u8);
+        b.bytes(&ctx.rng.bytes(16));
+        b.f32(ctx.rng.next() as u32);
+        b.bytes(&ctx.rng.bytes(round));
+        ctx.drive("glyph-keyed", &b, &walk_glyph_keyed);
+    }
+    for round in 0..(if ctx.thorough { 500 } else { 84 }) {
+        let wide = round % 2 == 1;
+        let n = match round % 7 {
+            0 => 0,
+            1 => 1,
+            _ => 1 + ctx.rng.below(5) as usize,
+        };
+        let mut gids: Vec<u32> = vec![];
+        let mut g = 0u32;
+        for _ in 0..n {
+            g += 1 + ctx.rng.below(if wide { 70000 } else { 300 }) as u32;
+            gids.push(g);
+        }
+        let sorted = match round % 5 {
+            3 if n > 1 => {
+                gids[n - 1] = gids[0];
+                false
+            }
+            4 if n > 1 => {
+                gids.reverse();
+                false
+            }
+            _ => true,
+        };
+        let spec = GkSpec { wide, gids, n_tables: (round % 4) as u8 };
+        let (t, want) = glyph_patches(&mut ctx.rng, &spec);
+        let mut b = B::new();
+        b.f8(wide as u8);
+        b.append(&t);
+        ctx.drive("glyph-patches", &b, &walk_glyph_patches);
+        if !super::vars::skip_known() {
+            ctx.call("glyph-patches.big-index", &b.v, &walk_glyph_patches_big);
+        }
+        ctx.count(if wide { "glyph-patches.wide" } else { "glyph-patches.narrow" });
+        // relational: every table yields the data of every glyph, in order
+        if sorted {
+            if let Ok(p) = GlyphPatches::read(FontData::new(&t.v), GlyphKeyedFlags::from_bits_truncate(wide as u8)) {
+                for (ti, per) in want.iter().enumerate() {
+                    let got = catch(|| p.glyph_data_for_table(ti).take(100).map(|r| r.map(|(g, d)| (g, d.to_vec())).map_err(|e| format!("{e:?}"))).collect::<Vec<_>>());
+                    let exp: Vec<Result<(GlyphId, Vec<u8>), String>> = spec.gids.iter().zip(per).map(|(g, d)| Ok((GlyphId::new(*g), d.clone()))).collect();
+                    ctx.oracle("ift.glyph-data", got.as_ref() == Ok(&exp), || format!("glyph-patches {} table {}", hex(&t.v), ti), || format!("expected {exp:?} got {got:?}"));
+                }
+                ctx.count("glyph-patches.clean");
+            }
+        }
+    }
+    // counts whose products overflow: glyph_count × table_count, × 4, × 3
+    for gc in [0x4000_0000u32, 0x5555_5556, 0x7FFF_FFFF, 0x8000_0000, 0xFFFF_FFFF, 0x0101_0102] {
+        for tc in [0u8, 1, 2, 4, 255] {
+            let mut b = B::new();
+            b.u8(1).u32(gc).u8(tc);
+            b.zeros(40);
+            ctx.call("glyph-patches.big", &b.v, &walk_glyph_patches);
+        }
+    }
+    ctx.drive_random("table-keyed", if ctx.thorough { 4000 } else { 600 }, 48, &walk_table_keyed);
+    ctx.drive_random("glyph-keyed", if ctx.thorough { 600 } else { 100 }, 40, &walk_glyph_keyed);
+    ctx.drive_random("glyph-patches", if ctx.thorough { 12000 } else { 2000 }, 48, &walk_glyph_patches);
+}
+
+pub fn run(ctx: &mut Ctx) {
+    run_format1(ctx);
+    run_args(ctx);
+    run_format2(ctx);
+    run_patches(ctx);
+}
